@@ -56,6 +56,13 @@ META["C17"] = dict(
     note="Trusted: Lean kernel; hand models tied by correspondence (full timer ranges, whole zone grid, AMBR sweep each run); Go time package; spec decoder transcriptions.",
     technique="Lean 4 proof on hand models (omega over the unit ladder, decide over finite grids; network-name round trip partial) + Go/Lean correspondence with full-range sweeps")
 
+CONV_NOTE = ("Trusted: Lean kernel; the hand-written model Model/Convert.lean (checked indexing, fuel-bounded loops), tied to the code by running "
+             "every helper and the model on the same generated contents each run; the Go library models of Prelude/GoLib.lean "
+             "(hex, RotateLeft8, strings.Index/Join, Sprintf %x/%d, Atoi on one byte).")
+META["C14"] = dict(
+    text="Kernel-checked on the hand model, for every byte string (resp. every text): SuciToStringWithError, naiToString, GutiToStringWithError, GutiToNasWithError, PeiToStringWithError, AmfIdToNasWithError, RequestedNssaiToModels (on decoded IEs) / snssaiToModels, LadnToModels, UESecurityCapabilityToByteArray, PSIToBooleanArray, UpuAckToModels, DNN.GetDNN and the 15 MobileIdentity5GS text getters return a value or an error, never a panic (every index and slice bound is discharged), and the three loops (NSSAI, LADN, DNN) finish within a fuel bound because each iteration advances (running out of fuel is a panic in the model). The real functions are run on exhaustive short and structured contents each run with a panic/hang oracle. Defects F2-F7 were repaired in /repo (fix: commits).",
+    note=CONV_NOTE, technique="Lean 4 proof (NoPanic weakest-precondition calculus over a hand model with checked indexing; induction with progress measure for the loops) + Go/Lean correspondence + panic/hang oracle")
+
 NOT_APPLICABLE = {
  "C01": "check not built yet in this round (Lean model + correspondence planned, see DESIGN.md section 4); not claimed until it runs",
  "C02": "check not built yet in this round (Lean model + correspondence planned, see DESIGN.md section 4); not claimed until it runs",
